@@ -459,6 +459,61 @@ def gen_structure(rng, depth, opts=None):
     return pg.compact_prog(g.nodes)
 
 
+def _forcing(rng, nodes, depth):
+    """a term X -> 1 whose typing rule forces structure on X: unit | take F | drop F | case F F"""
+    def add(n):
+        nodes.append(n)
+        return len(nodes) - 1
+    if depth <= 0 or rng.below(100) < 25:
+        return add(("unit",))
+    k = rng.choice(["take", "drop", "case", "case"])
+    if k == "case":
+        a = _forcing(rng, nodes, depth - 1)
+        return add(("case", a, _forcing(rng, nodes, depth - 1)))
+    return add((k, _forcing(rng, nodes, depth - 1)))
+
+
+def gen_shared_witness(rng):
+    """the shape of finding F-C08 with a witness: ONE node object S that contains a witness node W is used in both
+    branches of a case; the consumer in one branch forces a wide type on S (hence on W), the other a narrow one:
+        main := comp (pair sel unit) (case (drop (comp S F1)) (drop (comp S F2)))
+    Whichever branch the selector witness picks, the other one is dropped by pruning and W must be re-typed and
+    its value shrunk (or kept, when the forcing branch is the executed one)."""
+    nodes = []
+
+    def add(n):
+        nodes.append(n)
+        return len(nodes) - 1
+
+    sel = add(("wit", None))
+    pr = add(("pair", sel, add(("unit",))))
+    w = add(("wit", None))
+    kind = rng.choice(["w", "w", "injl", "injr", "pair_wu", "pair_uw", "comp_wi", "pair_ww", "pair_w2"])
+    if kind == "w":
+        s = w
+    elif kind in ("injl", "injr"):
+        s = add((kind, w))
+    elif kind == "pair_wu":
+        s = add(("pair", w, add(("unit",))))
+    elif kind == "pair_uw":
+        s = add(("pair", add(("unit",)), w))
+    elif kind == "comp_wi":
+        s = add(("comp", w, add(("iden",))))
+    elif kind == "pair_ww":
+        s = add(("pair", w, w))
+    else:
+        s = add(("pair", w, add(("wit", None))))
+    f1 = _forcing(rng, nodes, rng.choice([0, 1, 1, 2]))
+    f2 = _forcing(rng, nodes, rng.choice([1, 2, 3, 3]))
+    a = add(("drop", add(("comp", s, f1))))
+    b = add(("drop", add(("comp", s, f2))))
+    if rng.below(2):
+        a, b = b, a
+    c = add(("case", a, b))
+    add(("comp", pr, c))
+    return pg.compact_prog(nodes)
+
+
 def witness_nodes(prog):
     return [i for i, n in enumerate(prog) if n[0] == "wit"]
 
